@@ -22,11 +22,13 @@ abbrev Out := List Nat
 
 /-! ### `%d` -/
 
-/-- Decimal digits of a natural number (ASCII). -/
-def showNat (n : Nat) : List Nat :=
-  if h : n < 10 then [48 + n] else showNat (n / 10) ++ [48 + n % 10]
-termination_by n
-decreasing_by omega
+/-- Decimal digits (ASCII) of `n`, most significant first; `fuel` bounds the number of digits. -/
+def showNatAux : Nat → Nat → List Nat
+  | 0, n => [48 + n % 10]
+  | fuel + 1, n => if n < 10 then [48 + n] else showNatAux fuel (n / 10) ++ [48 + n % 10]
+
+/-- Decimal digits of a natural number (`n` itself is fuel enough). -/
+def showNat (n : Nat) : List Nat := showNatAux n n
 
 /-- `printf("%d", i)`. -/
 def showInt (i : Int) : List Nat :=
